@@ -111,14 +111,48 @@ package updates
 
 //@ func mutateDivide
 //@ requires IntOperand(current, value) && RealOperand(current, value) && NonZeroDivisor(value)
+// RFC 7047 5.1 <mutator>: the column (or each element of it) is replaced by column OP value
+//@ ensures istype(current, "int") ==> (istype(result, "int") && unbox(result, "int") == unbox(current, "int") / unbox(value, "int"))
+//@ ensures istype(current, "float64") ==> (istype(result, "float64") && unbox(result, "float64") == unbox(current, "float64") / unbox(value, "float64"))
+//@ ensures istype(current, "[]int") ==> (istype(result, "[]int") && unbox(result, "[]int") == unbox(current, "[]int") && len(unbox(current, "[]int")) == old(len(unbox(current, "[]int"))) && (forall k: int :: 0 <= k && k < len(unbox(current, "[]int")) ==> unbox(current, "[]int")[k] == old(unbox(current, "[]int")[k]) / unbox(value, "int")))
+//@ ensures !istype(current, "int") && !istype(current, "float64") && !istype(current, "[]int") && !istype(current, "[]float64") ==> result == current
+//@ loop 1 invariant istype(current, "[]int") && istype(value, "int") && len(unbox(current, "[]int")) == old(len(unbox(current, "[]int")))
+//@ loop 1 invariant forall k: int :: 0 <= k && k < len(unbox(current, "[]int")) ==> unbox(current, "[]int")[k] == ite(k <= rangeindex, old(unbox(current, "[]int")[k]) / unbox(value, "int"), old(unbox(current, "[]int")[k]))
 //@ func mutateModulo
 //@ requires IntOperand(current, value) && NonZeroDivisor(value)
+// RFC 7047 5.1 <mutator>: the column (or each element of it) is replaced by column OP value
+//@ ensures istype(current, "int") ==> (istype(result, "int") && unbox(result, "int") == unbox(current, "int") % unbox(value, "int"))
+//@ ensures istype(current, "[]int") ==> (istype(result, "[]int") && unbox(result, "[]int") == unbox(current, "[]int") && len(unbox(current, "[]int")) == old(len(unbox(current, "[]int"))) && (forall k: int :: 0 <= k && k < len(unbox(current, "[]int")) ==> unbox(current, "[]int")[k] == old(unbox(current, "[]int")[k]) % unbox(value, "int")))
+//@ ensures !istype(current, "int") && !istype(current, "float64") && !istype(current, "[]int") && !istype(current, "[]float64") ==> result == current
+//@ loop 1 invariant istype(current, "[]int") && istype(value, "int") && len(unbox(current, "[]int")) == old(len(unbox(current, "[]int")))
+//@ loop 1 invariant forall k: int :: 0 <= k && k < len(unbox(current, "[]int")) ==> unbox(current, "[]int")[k] == ite(k <= rangeindex, old(unbox(current, "[]int")[k]) % unbox(value, "int"), old(unbox(current, "[]int")[k]))
 //@ func mutateAdd
 //@ requires IntOperand(current, value) && RealOperand(current, value)
+// RFC 7047 5.1 <mutator>: the column (or each element of it) is replaced by column OP value
+//@ ensures istype(current, "int") ==> (istype(result, "int") && unbox(result, "int") == unbox(current, "int") + unbox(value, "int"))
+//@ ensures istype(current, "float64") ==> (istype(result, "float64") && unbox(result, "float64") == unbox(current, "float64") + unbox(value, "float64"))
+//@ ensures istype(current, "[]int") ==> (istype(result, "[]int") && unbox(result, "[]int") == unbox(current, "[]int") && len(unbox(current, "[]int")) == old(len(unbox(current, "[]int"))) && (forall k: int :: 0 <= k && k < len(unbox(current, "[]int")) ==> unbox(current, "[]int")[k] == old(unbox(current, "[]int")[k]) + unbox(value, "int")))
+//@ ensures !istype(current, "int") && !istype(current, "float64") && !istype(current, "[]int") && !istype(current, "[]float64") ==> result == current
+//@ loop 1 invariant istype(current, "[]int") && istype(value, "int") && len(unbox(current, "[]int")) == old(len(unbox(current, "[]int")))
+//@ loop 1 invariant forall k: int :: 0 <= k && k < len(unbox(current, "[]int")) ==> unbox(current, "[]int")[k] == ite(k <= rangeindex, old(unbox(current, "[]int")[k]) + unbox(value, "int"), old(unbox(current, "[]int")[k]))
 //@ func mutateSubtract
 //@ requires IntOperand(current, value) && RealOperand(current, value)
+// RFC 7047 5.1 <mutator>: the column (or each element of it) is replaced by column OP value
+//@ ensures istype(current, "int") ==> (istype(result, "int") && unbox(result, "int") == unbox(current, "int") - unbox(value, "int"))
+//@ ensures istype(current, "float64") ==> (istype(result, "float64") && unbox(result, "float64") == unbox(current, "float64") - unbox(value, "float64"))
+//@ ensures istype(current, "[]int") ==> (istype(result, "[]int") && unbox(result, "[]int") == unbox(current, "[]int") && len(unbox(current, "[]int")) == old(len(unbox(current, "[]int"))) && (forall k: int :: 0 <= k && k < len(unbox(current, "[]int")) ==> unbox(current, "[]int")[k] == old(unbox(current, "[]int")[k]) - unbox(value, "int")))
+//@ ensures !istype(current, "int") && !istype(current, "float64") && !istype(current, "[]int") && !istype(current, "[]float64") ==> result == current
+//@ loop 1 invariant istype(current, "[]int") && istype(value, "int") && len(unbox(current, "[]int")) == old(len(unbox(current, "[]int")))
+//@ loop 1 invariant forall k: int :: 0 <= k && k < len(unbox(current, "[]int")) ==> unbox(current, "[]int")[k] == ite(k <= rangeindex, old(unbox(current, "[]int")[k]) - unbox(value, "int"), old(unbox(current, "[]int")[k]))
 //@ func mutateMultiply
 //@ requires IntOperand(current, value) && RealOperand(current, value)
+// RFC 7047 5.1 <mutator>: the column (or each element of it) is replaced by column OP value
+//@ ensures istype(current, "int") ==> (istype(result, "int") && unbox(result, "int") == unbox(current, "int") * unbox(value, "int"))
+//@ ensures istype(current, "float64") ==> (istype(result, "float64") && unbox(result, "float64") == unbox(current, "float64") * unbox(value, "float64"))
+//@ ensures istype(current, "[]int") ==> (istype(result, "[]int") && unbox(result, "[]int") == unbox(current, "[]int") && len(unbox(current, "[]int")) == old(len(unbox(current, "[]int"))) && (forall k: int :: 0 <= k && k < len(unbox(current, "[]int")) ==> unbox(current, "[]int")[k] == old(unbox(current, "[]int")[k]) * unbox(value, "int")))
+//@ ensures !istype(current, "int") && !istype(current, "float64") && !istype(current, "[]int") && !istype(current, "[]float64") ==> result == current
+//@ loop 1 invariant istype(current, "[]int") && istype(value, "int") && len(unbox(current, "[]int")) == old(len(unbox(current, "[]int")))
+//@ loop 1 invariant forall k: int :: 0 <= k && k < len(unbox(current, "[]int")) ==> unbox(current, "[]int")[k] == ite(k <= rangeindex, old(unbox(current, "[]int")[k]) * unbox(value, "int"), old(unbox(current, "[]int")[k]))
 
 //@ func mutate
 //@ requires (mutator == "+=" || mutator == "-=" || mutator == "*=" || mutator == "/=" || mutator == "%=") ==> (IntOperand(current, value) && RealOperand(current, value))
